@@ -726,6 +726,12 @@ func (t *tread) handle(cs *connState) message {
 		return newErr(linux.ENOBUFS)
 	}
 
+	// The reply (header, count and data) has to fit in the negotiated message
+	// size: shorten the read instead of exceeding it.
+	if msize := atomic.LoadUint32(&cs.messageSize); msize > headerLength+4 && t.Count > msize-(headerLength+4) {
+		t.Count = msize - (headerLength + 4)
+	}
+
 	var n int
 	data := cs.readBufPool.Get().(*[]byte)
 	// Retain a reference to the full length of the buffer.
